@@ -149,6 +149,13 @@ func VerifH02dArchive() {
 	verifrt.Terminates()
 	verifrt.Concurrent(-1)
 	root := zzSite()
+	linked := verifrt.Bool("link-to-a-hidden-file-in-the-tree")
+	if linked {
+		// a symbolic link inside the archived tree whose target is on the hide list
+		verifrt.FSSymlink(root+"/d/l", root+"/h2")
+	} else if !verifrt.Symbolic() {
+		os.Remove(root + "/d/l") // (natively the vectors of one run share the directory)
+	}
 	fs := staticfiles.FileServer{Root: http.Dir(root), Hide: []string{"/d/h", "/h2"}}
 	bc := Config{PathScope: "/", Fs: fs, ArchiveTypes: []ArchiveType{ArchiveTar}, BufferSize: 64}
 	b := Browse{Next: &zzNext{}, Configs: []Config{bc}}
@@ -161,5 +168,11 @@ func VerifH02dArchive() {
 	verifrt.Assert(!strings.Contains(body, "H"), "hidden-file-not-in-archive")
 	verifrt.Assert(!strings.Contains(body, "O"), "nothing-outside-the-root-in-archive")
 	verifrt.Assert(status != 0 || strings.Contains(body, "X"), "visible-files-in-archive")
-	verifrt.Observe("archive", status, w.status, strings.Contains(body, "X"))
+	if linked {
+		// (the real tar writer gives up on a symbolic link -- the archive ends there with an error --
+		// while the recording stand-in carries on: only the property itself is compared for this input)
+		verifrt.Observe("archive-with-link", strings.Contains(body, "H"))
+	} else {
+		verifrt.Observe("archive", status, w.status, strings.Contains(body, "X"))
+	}
 }
